@@ -139,6 +139,9 @@ class sptensor:
                 if not tt_sizecheck(shape):
                     raise ValueError(f"Invalid shape provided: {shape}")
                 self.shape = tuple(shape)
+                # no rows, one column per mode / one value column
+                self.subs = np.empty((0, len(shape)), dtype=int)
+                self.vals = np.empty((0, 1))
             return
         if subs is None or vals is None:
             raise ValueError("If subs or vals are provided they must both be provided.")
@@ -157,12 +160,13 @@ class sptensor:
                 f"{tuple(np.max(subs, axis=0) + 1)}"
             )
         else:
-            # In case user provides an empty array in weird format
-            subs = np.array([], ndmin=2, dtype=int)
+            # In case user provides an empty array in weird format:
+            # no rows, one column per mode
+            subs = np.empty((0, len(shape)), dtype=int)
 
         if vals.size == 0:
-            # In case user provides an empty array in weird format
-            vals = np.array([], dtype=vals.dtype, ndmin=2)
+            # In case user provides an empty array in weird format: no rows, one column
+            vals = np.empty((0, 1), dtype=vals.dtype)
 
         if copy:
             self.subs = subs.copy()
